@@ -119,16 +119,14 @@ def scBlocks (g : G) : M (Array Rat × Array Nat) := do
   let (s, bw) ← (scOrder g).foldlM (scStep g) (s0, Array.replicate n 0)
   pure (bw, s.roots)
 
+/-- initial coordinates of one layer: left to right, one block width per node -/
+def scInitLayer (ns : Rat) (bw : Array Rat) (roots : Array Nat) (xc : Array Rat) (nodes : List Nat) : Array Rat :=
+  (nodes.zip (Phase4Simple.placeFrom 0 ns (nodes.map fun k => bw.getD (roots.getD k k) 0))).foldl
+    (fun xc p => xc.setIfInBounds p.1 p.2) xc
+
 /-- initial coordinates: left to right, one block width per node -/
-def scInitX (ns : Rat) (g : G) (bw : Array Rat) (roots : Array Nat) : Array Rat := Id.run do
-  let n := g.nodes.size
-  let root := fun k => roots.getD k k
-  let mut xc : Array Rat := Array.replicate n 0
-  for layer in g.layers.toList do
-    let xs := Phase4Simple.placeFrom 0 ns (layer.nodes.map fun k => bw.getD (root k) 0)
-    for (k, x) in layer.nodes.zip xs do
-      xc := xc.setIfInBounds k x
-  pure xc
+def scInitX (ns : Rat) (g : G) (bw : Array Rat) (roots : Array Nat) : Array Rat :=
+  (g.layers.toList.map (·.nodes)).foldl (scInitLayer ns bw roots) (Array.replicate g.nodes.size 0)
 
 /-- one iteration of `for n, x := range xcoord { blockmax[roots[n]] = max(blockmax[roots[n]], x) }` -/
 def bmStep (roots : Array Nat) (xc : Array Rat) (bm : Array Rat) (k : Nat) : Array Rat :=
@@ -149,10 +147,29 @@ def scPlan (g : G) (xc : Array Rat) : List (List Nat × List Rat) :=
   g.layers.toList.map fun l => (l.nodes, l.nodes.map fun k => xc.getD k 0)
 def scWrite (g : G) (xc : Array Rat) : G := growAllH (placeAll g (scPlan g xc))
 
+/-- the coordinates `execSinkColoring` computes (before they are written to the nodes), and the recursion depth of placeBlock -/
+def scCoords (ns : Rat) (g : G) : M (Array Rat × Nat) := do
+  let (bw, roots) ← scBlocks g
+  let (ps, depth) ← placeBlock g (scLmax g) ns bw roots (placeBlockFuel g) (scInit ns g bw roots)
+  pure (ps.xcoord, depth)
+
 /-- `execSinkColoring`; also returns the recursion depth of placeBlock -/
 def execSinkColoring (ns : Rat) (g : G) : M (G × Nat) := do
   let (bw, roots) ← scBlocks g
   let (ps, depth) ← placeBlock g (scLmax g) ns bw roots (placeBlockFuel g) (scInit ns g bw roots)
   pure (scWrite g ps.xcoord, depth)
+
+/-- `execSinkColoring` writes the coordinates `scCoords` computes -/
+theorem execSinkColoring_coords (ns : Rat) (g : G) :
+    execSinkColoring ns g = (scCoords ns g).map fun r => (scWrite g r.1, r.2) := by
+  unfold execSinkColoring scCoords
+  cases scBlocks g with
+  | error e => rfl
+  | ok r =>
+    obtain ⟨bw, roots⟩ := r
+    simp only [bind, Except.bind]
+    cases placeBlock g (scLmax g) ns bw roots (placeBlockFuel g) (scInit ns g bw roots) with
+    | error e => rfl
+    | ok r2 => rfl
 
 end Autog
